@@ -415,6 +415,63 @@ def _bytes_case(i, layout, depth):
         return rt.ok()
 
 
+FALL = ['home-to-alt', 'alt-to-home-fallback', 'top-to-alt']
+FERR = [13, 30, 28, 5]  # EACCES EROFS ENOSPC EIO
+
+
+def _fall_case(direction, e, kind):
+    """the first usable candidate fails AFTER the info content was generated; the entry lands in a trash
+    directory of the other kind: the Path written there must follow that directory's rule"""
+    with rt.untraced():
+        import errno as _e
+        d = FALL[direction]
+        rt.begin(('fallthrough', d, _e.errorcode[FERR[e]], K.KINDS[kind]))
+        nodes = [W.d('/h'), W.d('/h/w'), W.d('/v/d'), W.f('/v/keep', 'KEEP', 0o644, 800)] + K.sentinels('/v/out')
+        env = scen.env()
+        args = []
+        if d == 'home-to-alt':
+            src, bad, opn = '/h/w/x y', '/h/.local/share/Trash/info', 'open'
+            want_td, want_path = '/.Trash-1000', 'h/w/x%20y'
+        elif d == 'alt-to-home-fallback':
+            src, bad, opn = '/v/d/x y', '/v/.Trash-1000/info', 'open'
+            want_td, want_path = '/h/.local/share/Trash', '/v/d/x%20y'
+            args = ['--home-fallback']
+            env['TRASH_ENABLE_HOME_FALLBACK'] = '1'
+        else:
+            nodes.append(W.d('/v/.Trash', 0o1777))
+            src, bad, opn = '/v/d/x y', '/v/.Trash/1000/info', 'open'
+            want_td, want_path = '/v/.Trash-1000', 'd/x%20y'
+        nodes += K.entry_nodes(kind, src, 1000, out='/v/out')
+        m = W.build_model(W.W(mounts=K.MOUNTS, cwd='/', nodes=nodes))
+        m.max_ops = 9000
+        hook = scen.PathFaultHook(opn, bad, FERR[e])
+        _, r = scen.run_model(None, [C('put', args + ['--', src], env, now=NOW, cwd='/')], hook=hook, model=m)
+        r = r[0]
+        label = '%s:%s' % (d, _e.errorcode[FERR[e]])
+        if r.get('nonterminating') or r['exc']:
+            return rt.fail('C03:fallthrough-crashed:' + label, repr(r)[:300])
+        if not hook.injected:
+            return rt.fail('C03:harness-fault-not-injected:' + label, '')
+        after = m.snap('/')
+        infos = scen.children(after, want_td + '/info')
+        if r['exit'] != 0 or len(infos) != 1:
+            return rt.fail('C03:fallthrough-did-not-reach-next-candidate:' + label, 'exit %r, infos in %s: %r; stderr %r' % (r['exit'], want_td, sorted(infos), r['err'][-300:]))
+        data = list(infos.values())[0][2]
+        line = data.split(b'\n')[1]
+        if line != ('Path=' + want_path).encode():
+            return rt.fail('C03:path-rule-of-other-candidate:' + label, 'entry %r trashed in %s after %s failed: %r, expected %r' % (
+                src, want_td, bad, line, 'Path=' + want_path))
+        return rt.ok()
+
+
+def w_fall(direction: int, e: int, kind: int) -> str:
+    """
+    pre: 0 <= direction < 3 and 0 <= e < 4 and 0 <= kind < 6
+    post: _ == ''
+    """
+    return _fall_case(rt.sel(direction, 3), rt.sel(e, 4), rt.sel(kind, 6))
+
+
 def w_bytes(i: int, layout: int, depth: int) -> str:
     """
     pre: PARTITION is None or layout == PARTITION
@@ -447,5 +504,8 @@ def obligations(tier):
         CH('W_every_byte_value', MOD, 'w_bytes', timeout=900, partitions=[0, 1, 2], engine='W', regime='selector',
            encodes=K.PUT_FUNCS + K.LIST_FUNCS, stubs=K.STUBS,
            bounds='names: every single byte 1..255 except "/" (0x80.. as undecodable bytes) + 30 special names incl. 255-byte names x 3 layouts x 2 depths'),
+        CH('W_path_rule_after_candidate_fallthrough', MOD, 'w_fall', timeout=600, engine='W', regime='selector',
+           encodes=K.PUT_FUNCS, stubs=K.STUBS + ['persistent errno on one directory'],
+           bounds='3 fall-through directions (home->.Trash-uid, .Trash-uid->home fallback, .Trash/uid->.Trash-uid) x 4 errnos x 6 kinds'),
     ]
     return obs
